@@ -21,6 +21,23 @@ class DeliveryMonitor(netsim.Monitor):
         self.allow_close = allow_close
 
     def after_pump(self, w, ep, cause, sent, new_events, timer):
+        if not self.allow_close:
+            for d, addr in sent:
+                for r in d.recs:
+                    for f in r.frames or []:
+                        if f["t"] == "CONNECTION_CLOSE":
+                            raise netsim.Violation(
+                                {"monitor": "closed", "error_code": f["err"],
+                                 "reason": f["reason"].decode("utf8", "replace")},
+                                "%s sent CONNECTION_CLOSE (code 0x%x, frame %r, reason %r) under a benign network"
+                                % (ep.name, f["err"], f.get("ftype"), f["reason"]),
+                            )
+            if ep.conn._state.name in ("CLOSING", "DRAINING") and ep.terminated is None:
+                ev = ep.conn._close_event
+                raise netsim.Violation(
+                    {"monitor": "closed", "error_code": getattr(ev, "error_code", None),
+                     "reason": getattr(ev, "reason_phrase", None)},
+                    "%s is closing (%r) under a benign network" % (ep.name, ev))
         if not new_events:
             return
         peer = w.ep["s" if ep.name == "c" else "c"]
@@ -129,6 +146,10 @@ SCRIPTS = {
     "early_write": {"c": [W(0, 1000, True, g="now")]},
     "three_streams_fill": {"c": [W(0, FILL), W(4, FILL), W(8, 0, True), W(0, 0, True), W(4, 0, True)]},
     "small_many": {"c": [W(0, 1), W(0, 1), W(0, 1, True)], "s": [W(1, 1), W(1, 1, True)]},
+    "fin_sep_later": {"c": [W(0, 700), W(0, 0, True, g=("t", 0.027))]},
+    "fin_sep_later_srv": {"c": [W(0, 10, True)], "s": [W(0, 900, g=("rxfin", 0)), W(0, 0, True, g=("t", 0.045))]},
+    "request_response_x2": {"c": [W(0, 300, True), W(4, 300, True, g=("rxfin", 0))],
+                            "s": [W(0, 900, True, g=("rxfin", 0)), W(4, 900, True, g=("rxfin", 4))]},
     "fin_after_rx": {"c": [W(0, 100)], "s": [W(0, 100, True, g=("rx", 0, 100))]},
 }
 
